@@ -185,6 +185,52 @@ pub fn suite_c18(ctx: &mut Ctx) {
                     cs[nc - 1] = vec![0];
                 }
                 (x, cs)
+            } else if r % 4 == 3 && nc >= 3 {
+                // constant big, c1 * x exactly half an ulp of it, c2 * x^2 a single dust bit at a CHOSEN distance below the
+                // leading bit (63..65, 127..129, just below the rounding position, anywhere down to 200); x a power of two
+                // whose square is exact
+                let mut found = None;
+                for _ in 0..60 {
+                    let sc = ctx.rng.gen_range(-maxs / 4..maxs);
+                    let big = gen::from_scale(ty.n, ty.es, sc, [0u64, u64::MAX, 1 << 63, ctx.rng.gen::<u64>()][(r / 4) % 4]);
+                    let (_, s2, nf, _) = gen::decode(ty.n, ty.es, big);
+                    let sx = -ctx.rng.gen_range(1..=(maxs / 2).max(1));
+                    let x = gen::from_scale(ty.n, ty.es, sx, 0);
+                    let (_, sxd, _, fx) = gen::decode(ty.n, ty.es, x);
+                    let delta = match ctx.rng.gen_range(0..6) {
+                        0 => ctx.rng.gen_range(63..=65),
+                        1 => ctx.rng.gen_range(127..=129),
+                        2 => nf as i32 + 2 + ctx.rng.gen_range(0..4),
+                        _ => ctx.rng.gen_range(nf as i32 + 2..nf as i32 + 200),
+                    };
+                    let want1 = s2 - nf as i32 - 1 - sx;
+                    let want2 = s2 - delta - 2 * sx;
+                    if fx != 0 || sxd != sx || want1.abs() > maxs || want2.abs() > maxs {
+                        continue;
+                    }
+                    let c1 = gen::from_scale(ty.n, ty.es, want1, 0);
+                    let c2 = gen::from_scale(ty.n, ty.es, want2, 0);
+                    let (_, a1, _, f1) = gen::decode(ty.n, ty.es, c1);
+                    let (_, a2, _, f2) = gen::decode(ty.n, ty.es, c2);
+                    // x^2 must be exact: the scale 2*sx must be representable as a power of two
+                    let x2 = gen::from_scale(ty.n, ty.es, 2 * sx, 0);
+                    let (_, sx2, _, fx2) = gen::decode(ty.n, ty.es, x2);
+                    if a1 == want1 && f1 == 0 && a2 == want2 && f2 == 0 && sx2 == 2 * sx && fx2 == 0 {
+                        found = Some((big, x, c1, c2));
+                        break;
+                    }
+                }
+                let (big, x, c1, c2) = match found { Some(t) => t, None => continue };
+                let mut cs: Vec<Vec<u64>> = (0..nc).map(|_| vec![0u64]).collect();
+                cs[nc - 1] = vec![big];
+                cs[nc - 2] = vec![c1];
+                cs[nc - 3] = vec![if ctx.rng.gen::<bool>() { gen::neg(ty.n, c2) } else { c2 }];
+                if ctx.rng.gen::<bool>() {
+                    for c in cs.iter_mut() {
+                        c[0] = gen::neg(ty.n, c[0]);
+                    }
+                }
+                (x, cs)
             } else {
                 // the constant coefficient is big; (next coefficient) * x is exactly half an ulp of it (a tie);
                 // one more coefficient times a saturated power of the tiny x is dust > 64 bits below
